@@ -6,7 +6,7 @@ CHECK = {
         "driver answers never exceed what was asked; a driver that answers 0/EINTR/EAGAIN for ever is outside the alphabet (scripts are finite), so every retry loop is bounded by a call budget and overrunning it is clause C17/hang",
         "small scope: counts <= 6 (40 in the periodic family), scripts <= 8 (6+6) call slots, auxiliary buffers <= 5 octets",
         "the octets between offset and used are taken as the auxiliary buffer's region, as the code does; geometries keep the free octets behind `used` non-empty too, and the memory check is against the whole buffer (red zones + pointer ranges seen by the drivers) plus 'octets in front of offset untouched' for the non-rewinding forms",
-        "the getbuffer extension is implemented by no endpoint in the tree and its contract is not part of the statement: sts_some/sts_atmost/sts_n/sts_drain are exercised on endpoints without it",
+        "c17_endpoints exercises sts_some/sts_atmost/sts_n/sts_drain on endpoints without the getbuffer extension; c17_getbuffer drives the same four operations through a source that offers a scratch region (the only getbuffer contract the code defines completely: read into the region, forward what was read), with partial-transfer scripts on both sides; sinks with a getbuffer extension are not driven (the code gives them no way to learn how much was stored)",
         "the return value of a drain without a scripted hard error is not pinned; N=0 / N>SSIZE_MAX must be refused with a negative code and without a driver call (the code itself is not pinned)",
     ],
     "harnesses": [{
@@ -21,5 +21,10 @@ CHECK = {
             "drain-complete", "drain-complete-after-deviation", "drain-hard-error",
             "real-ok-across-chunks", "real-atmost-short", "real-sink-full", "real-source-end",
             "real-drain-across-chunks"]},
+    }, {
+        "name": "c17_getbuffer", "src": "harness/c17_getbuffer.c", "shape": "espace",
+        "lib": ["src/endpoints/core.c", "src/byte-buffer.c"],
+        "min_outcomes": 4,
+        "require_outcomes": {"any": ["n-moved", "n-source-ended", "drained", "atmost-moved"]},
     }],
 }
